@@ -354,6 +354,63 @@ pub fn execute_c14(plan: &Plan) -> Outcome {
             Err(_) => v.push(Violation::new("C14", format!("C14/codec-vmess-panic/{class}"), format!("vmess address codec panicked on a {len}-byte name"))),
         }
     }
+    // ---- socket addresses (IPv4 and IPv6, including the special ranges) through both encodings, with a tail
+    {
+        let mut g = Gen::new(plan.seed, 141);
+        let tail = payload(2, 1, 0, 29);
+        let mut addrs: Vec<SocketAddr> = Vec::new();
+        let p = |g: &mut Gen| *g.pick(&[0u16, 1, 80, 443, 255, 256, 65535]);
+        let v4 = Ipv4Addr::new(g.below(256) as u8, g.below(256) as u8, g.below(256) as u8, g.below(256) as u8);
+        addrs.push(SocketAddr::new(IpAddr::V4(v4), p(&mut g)));
+        addrs.push(SocketAddr::new(IpAddr::V4(*g.pick(&[Ipv4Addr::UNSPECIFIED, Ipv4Addr::BROADCAST, Ipv4Addr::LOCALHOST, Ipv4Addr::new(3, 4, 5, 6)])), p(&mut g)));
+        let mut rnd = [0u8; 16];
+        g.fill(&mut rnd);
+        let specials: [std::net::Ipv6Addr; 8] = [
+            std::net::Ipv6Addr::LOCALHOST,
+            std::net::Ipv6Addr::UNSPECIFIED,
+            v4.to_ipv6_mapped(),
+            std::net::Ipv6Addr::new(0, 0, 0, 0, 0, 0xffff, 0x0102, 0x0304),
+            std::net::Ipv6Addr::new(0x64, 0xff9b, 0, 0, 0, 0, 0x0a00, 0x0001),
+            std::net::Ipv6Addr::new(0, 0, 0, 0, 0, 0, 0x0a00, 0x0001),
+            std::net::Ipv6Addr::new(0xfe80, 0, 0, 0, 0, 0, 0, 1),
+            std::net::Ipv6Addr::from(rnd),
+        ];
+        for a in specials {
+            addrs.push(SocketAddr::new(IpAddr::V6(a), p(&mut g)));
+        }
+        for sa in addrs {
+            let addr = Address::Socket(sa);
+            let kind = if sa.is_ipv4() { "ipv4" } else { "ipv6" };
+            let r = std::panic::catch_unwind(|| {
+                let mut b = BytesMut::new();
+                octo_squirrel::protocol::socks5::address::encode(&addr, &mut b);
+                b.extend_from_slice(&tail);
+                let d = octo_squirrel::protocol::socks5::address::decode(&mut b);
+                (d.ok(), b.to_vec())
+            });
+            evals += 1;
+            match r {
+                Ok((Some(d), rest)) if d == addr && rest == tail => {}
+                Ok((d, rest)) => v.push(Violation::new("C14", format!("C14/codec-socks5/{kind}"), format!("socks5 address codec: {sa} decoded to {d:?} leaving {} bytes (tail is {})", rest.len(), tail.len()))),
+                Err(_) => v.push(Violation::new("C14", format!("C14/codec-socks5-panic/{kind}"), format!("socks5 address codec panicked on {sa}"))),
+            }
+            let r = std::panic::catch_unwind(|| {
+                let mut b = BytesMut::new();
+                let w = octo_squirrel::protocol::vmess::address::write_address_port(&addr, &mut b);
+                b.extend_from_slice(&tail);
+                let mut frozen = b.freeze();
+                let d = octo_squirrel::protocol::vmess::address::read_address_port(&mut frozen);
+                (w.is_ok(), d.ok(), frozen.to_vec())
+            });
+            evals += 1;
+            match r {
+                Ok((true, Some(d), rest)) if d == addr && rest == tail => {}
+                Ok((w, d, rest)) => v.push(Violation::new("C14", format!("C14/codec-vmess/{kind}"), format!("vmess address codec: {sa}: write ok={w}, decoded to {d:?} leaving {} bytes (tail is {})", rest.len(), tail.len()))),
+                Err(_) => v.push(Violation::new("C14", format!("C14/codec-vmess-panic/{kind}"), format!("vmess address codec panicked on {sa}"))),
+            }
+        }
+        v.dedup_by(|a, b| a.signature == b.signature);
+    }
     let _ = crate::rt::take_panics();
     let mut probes = BTreeMap::new();
     probes.insert(format!("names_{class}"), 1);
